@@ -273,8 +273,10 @@ def skippedChar (r : Reader) (toSkip : Nat) : BRes :=
 def isWhitespace (nel : Bool) (c : Nat) : Bool :=
   c == chSpace || c == chHTab || c == chCR || c == chLF || (nel && (c == chNEL || c == chLineSeparator))
 
-/-- `(chCR|chLF) & ~(0x9|0x20)`: the pre-test of skippedSpace/skipSpaces ("can only be x20 or x9") -/
-def spaceMask : Nat := (chCR ||| chLF) &&& (0xFFFF ^^^ (chHTab ||| chSpace))
+/-- the pre-test of skippedSpace/skipSpaces/getSpaces: x20 or x9 advance the column, every other white-space
+character is a line end (since /repo 8449186; before, the bit test `(c & (chCR|chLF) & ~(0x9|0x20)) == 0` put
+U+2028 on the plain-space side) -/
+def isPlainSpace (c : Nat) : Bool := c == chSpace || c == chHTab
 
 /-- skippedSpace() -/
 def skippedSpace (r : Reader) : BRes :=
@@ -282,7 +284,7 @@ def skippedSpace (r : Reader) : BRes :=
     let c := r.curChar
     if isWhitespace r.nel c then
       let r := r.advance
-      if (c &&& spaceMask) == 0 then .ok true { r with col := r.col + 1 }
+      if isPlainSpace c then .ok true { r with col := r.col + 1 }
       else match handleEOL r c with
         | .ok _ r => .ok true r
         | .exc e r => .exc e r
